@@ -313,17 +313,19 @@ def mgmt_item(arg):
 def tod_item(arg):
     """Errors addressed by a time of day: the manifest translates the time into the media URLs; the synthetic error must
     be produced for the segment whose interval contains that time, and for no other listed segment."""
-    stream, addressing, ks, tier = arg
+    stream, addressing, ks, tier = arg[:4]
+    age = arg[4] if len(arg) > 4 else 0           # seconds the stream has been running before the window of interest
     from fractions import Fraction
     from mc import mpd
     w = W.World.shared(extras=True)
     w.begin_item()
     acc = core.Acc()
-    ast = datetime.datetime(2024, 3, 1, 12, 0, 0, tzinfo=datetime.timezone.utc)
-    now = ast + datetime.timedelta(seconds=47.5)
-    for k in ks:
+    ast = datetime.datetime(2024, 3, 1, 12, 0, 0, tzinfo=datetime.timezone.utc) - datetime.timedelta(seconds=age)
+    now = ast + datetime.timedelta(seconds=age + 47.5)
+    for k0 in ks:
+        k = k0 + age
         tod = (ast + datetime.timedelta(seconds=k)).strftime('%H:%M:%SZ')
-        q = {'start': '2024-03-01T12:00:00Z', 'depth': '40', 'verr': f'503={tod}', 'aerr': f'404={tod}'}
+        q = {'start': crawl.iso(ast), 'depth': '40', 'verr': f'503={tod}', 'aerr': f'404={tod}'}
         if addressing == 'time':
             q['timeline'] = '1'
         url = f'/dash/live/{stream}/hand_made.mpd' + crawl.make_query(q)
@@ -331,7 +333,7 @@ def tod_item(arg):
         r = w.get(url)
         acc.count('evaluations')
         acc.count('transitions')
-        rec = {'kind': 'tod', 'stream': stream, 'addressing': addressing, 'ks': [k]}
+        rec = {'kind': 'tod', 'stream': stream, 'addressing': addressing, 'ks': [k0], 'age': age}
         if r.status != 200:
             acc.violation(f'C16|tod|{addressing}|manifest-status-{r.status}', f'{url}: status {r.status}', rec)
             continue
@@ -419,6 +421,11 @@ def run(ctx):
             ks = list(range(8, 47)) if not ctx.quick else list(range(8, 47, 3)) + [9, 12, 16]
             for ch in core.chunks(sorted(set(ks)), 5):
                 items.append(('tod', (stream, addressing, ch, ctx.tier)))
+            # an old stream: the audio and video segment grids have drifted apart by several segments
+            # (6 h and 23 h 30 min; the time of day must stay within the day of availabilityStartTime)
+            for age in ((6 * 3600,) if ctx.quick else (6 * 3600, 11 * 3600 + 1800)):
+                for ch in core.chunks(sorted(set(ks))[::2] if ctx.quick else sorted(set(ks)), 5):
+                    items.append(('tod', (stream, addressing, ch, ctx.tier, age)))
     from props import c17
     for n, _, _ in c17.ACTIONS:
         items.append(('mgmt', (n, ctx.tier)))
@@ -452,7 +459,7 @@ def replay(record):
         r = w.request('POST', record['url'], json_body=record['body'])
         judge(acc, 'json', f"POST {record['url']} {repr(record['body'])[:60]}", None, r, record)
     elif k == 'tod':
-        a = tod_item((record['stream'], record['addressing'], record['ks'], 'quick'))
+        a = tod_item((record['stream'], record['addressing'], record['ks'], 'quick', record.get('age', 0)))
         return [(s_, v[0]['what']) for s_, v in a.viol.items()]
     elif k == 'mgmt':
         from props import c17
